@@ -275,6 +275,12 @@ func judge(w *mon.W, c *mon.Case, en *sengine, res *rig.Result, in []byte) {
 	default:
 		c.Violate("response-extra", "%d final responses for %d entries into ServeHTTP", len(finals), len(entries))
 	}
+	// whatever the peer sent (also nothing at all), it has closed its side and Serve has
+	// returned: the server's side is closed too (nobody else will: the standard transport's
+	// connection goroutine ends with Serve), or every such peer costs a descriptor
+	if !res.Closed {
+		c.Violate("finished-not-closed", "Serve returned %v after the peer's EOF (%d input bytes, %d responses) and left the connection open", res.Err, len(in), len(finals))
+	}
 }
 
 func serverCase(w *mon.W, c *mon.Case, get func(scfg) *sengine) {
@@ -307,6 +313,12 @@ func serverCase(w *mon.W, c *mon.Case, get func(scfg) *sengine) {
 	var mdesc []string
 	if !r.Chance(12) {
 		stream, mdesc = wire.Mutate(r, stream)
+	}
+	if r.Chance(60) {
+		// connect and close: a health check, a port scan
+		stream, mdesc = nil, []string{"nothing sent"}
+		c.KeyTag = ""
+		w.Count("server_cases_nothing_sent", 1)
 	}
 	frags, policy := wire.FragSchedule(r, stream, nil)
 	en.mu.Lock()
